@@ -82,6 +82,7 @@ def node_to_dot(
             attr_def = {"label": f"{name}", "shape": "box"}
 
         attr_str = _attr_str(attr_def, node_mapper, node)
+        used_keys.add(_key(node))
         yield f"{indent}{_key(node)}{attr_str}"
 
     for n in node:
